@@ -79,7 +79,8 @@ static KEYWORDS: [&str; 48] = [
     "with",
 ];
 fn escape(id: &str, is_method: bool) -> RcDoc<'_> {
-    if KEYWORDS.contains(&id) {
+    // `Self` is the name the binding gives to the main service type
+    if KEYWORDS.contains(&id) || id == "Self" {
         str(id).append("_")
     } else if is_valid_as_id(id) {
         if id.ends_with('_') {
